@@ -136,3 +136,100 @@ CONTRACTS = [DataSetInit(), GetLength(), UpdateInternal(), SplitPieces()]
 LEMMAS = []
 ASSUMPTIONS = ["samples are opaque rows (no arithmetic on them in split_pieces)", "round(x) is a deterministic integer within 1/2 of x",
                "scaling / revert / shuffle / concatenate / remove: numpy + sklearn based, layer B only"]
+
+
+# --------------------------------------------------------------------------- concatenate / list_concatenate: rows and labels are appended in order, attributes carried
+SAMESC = z3.Function("same_scaling", z3.BoolSort(), U, U, z3.BoolSort(), U, U, z3.BoolSort())
+
+
+def samesc(a, b):
+    fa, fb = a.fields, b.fields
+    tb = lambda x: x if not isinstance(x, bool) else z3.BoolVal(x)  # noqa
+    return SAMESC(tb(fa["_scaled"]), fa["_scaling_range"].term, fa["_scaling_factor"].term, tb(fb["_scaled"]), fb["_scaling_range"].term, fb["_scaling_factor"].term)
+
+
+class SameScaling(Contract):
+    file, qualname = FILE, "DataSet.same_scaling"
+    trusted = True
+    note = "compares the scaled flags, scaling ranges and scaling factors of two sets (numpy / Iterable based): an uninterpreted predicate of these six values, reflexive"
+
+    def inputs(self, S):
+        return {"self": dataset(S), "to_check": dataset(S, "2")}
+
+    def result(self, S, env):
+        s, r, f = z3.Bool("rs"), z3.Const("rr", U), z3.Const("rf", U)
+        S.assume(z3.ForAll([s, r, f], SAMESC(s, r, f, s, r, f)), "def:same_scaling-reflexive")
+        return samesc(env["self"], env["to_check"])
+
+
+class IsEmpty(Contract):
+    file, qualname = FILE, "DataSet.is_empty"
+    trusted = True
+    note = "sample array has size 0, i.e. the set has no rows"
+
+    def inputs(self, S):
+        return {"self": dataset(S)}
+
+    def result(self, S, env):
+        n = env["self"].fields["_data"].items[0].len()
+        return (n == 0) if not isinstance(n, int) else (n == 0)
+
+
+def rows(ds):
+    return [x.to_symbolic() for x in ds.fields["_data"].items]
+
+
+def appended(res, a, b):
+    """res == a ++ b for samples and labels alike (labels stay attached to their samples)"""
+    (rs, rl), (as_, al), (bs, bl) = rows(res), rows(a), rows(b)
+    VV = lambda x: z3.IntVal(x) if isinstance(x, int) else x  # noqa
+    na, nb = VV(as_.len()), VV(bs.len())
+    i = z3.Int("ci")
+    return z3.And(VV(rs.len()) == na + nb, VV(rl.len()) == na + nb,
+                  z3.ForAll([i], z3.Implies(z3.And(i >= 0, i < na), z3.And(z3.Select(rs.arr, i) == z3.Select(as_.arr, i), z3.Select(rl.arr, i) == z3.Select(al.arr, i)))),
+                  z3.ForAll([i], z3.Implies(z3.And(i >= 0, i < nb), z3.And(z3.Select(rs.arr, na + i) == z3.Select(bs.arr, i), z3.Select(rl.arr, na + i) == z3.Select(bl.arr, i)))))
+
+
+class Concatenate(Contract):
+    """DataSet.concatenate: the result holds the receiver's rows followed by the argument's rows with their labels, carries the receiver's scaling attributes,
+    and neither input is modified; data sets with different scalings are refused"""
+    file, qualname = FILE, "DataSet.concatenate"
+    inline = ("DataSet.get_dim", "get_dim", "DataSet.__getitem__", "__getitem__")
+    total = False       # refusing (ValueError) is part of the contract: different dimensions of two non-empty sets, different scalings
+
+    def inputs(self, S):
+        return {"self": dataset(S), "other_dataset": dataset(S, "2")}
+
+    def post_raise(self, S, old, env, exc_name):
+        if exc_name != "ValueError":
+            return None
+        a, b = old["self"], old["other_dataset"]
+        na, nb = a.fields["_data"].items[0].len(), b.fields["_data"].items[0].len()
+        return [Cl("refusal-leaves-both-sets-untouched", z3.And(*[x.to_symbolic().arr == y.to_symbolic().arr for k in ("self", "other_dataset")
+                                                                 for x, y in zip(env[k].fields["_data"].items, old[k].fields["_data"].items)]), prop=True),
+                Cl("refused-only-for-different-dimensions-or-scalings", z3.Or(z3.And(a.fields["_dim"] != b.fields["_dim"], na != 0, nb != 0), z3.Not(samesc(a, b)),
+                                                                              z3.Not(samesc(a, a))))]
+
+    def post(self, S, old, env, result):
+        a, b = old["self"], old["other_dataset"]
+        if result is env["self"] or result is env["other_dataset"]:
+            # degenerate branch: one of the sets is empty and has another dimension; the other one is handed back
+            other = b if result is env["self"] else a
+            return [Cl("an-input-is-returned-only-when-the-other-one-is-empty", other.fields["_data"].items[0].len() == 0, prop=True)]
+        ok = isinstance(result, Obj) and isinstance(result.fields.get("_data"), Seq) and len(result.fields["_data"].items) == 2
+        if not ok:
+            return [Cl("returns-a-data-set", False, prop=True)]
+        return [Cl("returns-a-data-set", True, prop=True),
+                Cl("rows-of-the-receiver-then-rows-of-the-argument-labels-attached", appended(result, a, b), prop=True),
+                Cl("result-carries-the-receivers-scaling-attributes", attrs_equal(result, a), prop=True),
+                Cl("inputs-untouched", z3.And(*[x.to_symbolic().arr == y.to_symbolic().arr for k in ("self", "other_dataset")
+                                                for x, y in zip(env[k].fields["_data"].items, old[k].fields["_data"].items)]), prop=True),
+                Cl("different-scalings-are-refused", samesc(a, b), prop=True)]
+
+    @staticmethod
+    def model_to_input(model):
+        return {"kind": "C18.concatenate"}
+
+
+CONTRACTS += [SameScaling(), IsEmpty(), Concatenate()]
+ASSUMPTIONS += ["np.concatenate of two sequences is their concatenation in order (prelude); same_scaling is an uninterpreted reflexive predicate of (scaled flag, scaling range, scaling factor) of the two sets"]
